@@ -1,4 +1,4 @@
-"""Source-derived set operations (tie by translation, C19): `categorize`, `insert`, `union`, `intersect` and `complement` of
+"""Source-derived set operations (tie by translation, C19): `categorize`, `insert`, `union`, `intersect`, `complement`, `empty` and `universe` of
 /repo/src/set.rs are re-read on every run.  A method body is a sequence of `let x = <recv>.bdd.borrow().clone();` (read the
 diagram of self / other), `let x = <expr>;`, one `self.bdd.replace(<expr>);` (the new diagram of self) and the trailing `self`;
 expressions are library calls `self.env.<m>(..)` (the model functions; tied by lib/vlib/srcfun.py), `if e.categorize(i) {..} else
@@ -151,6 +151,8 @@ def gallina(src):
     uni = method(src, 'union', ['other'])
     inter = method(src, 'intersect', ['other'])
     comp = method(src, 'complement', ['other'])
+    emp = method(src, 'empty', [])
+    univ = method(src, 'universe', [])
     text = '''(* generated by lib/vlib/srcset.py from /repo/src/set.rs on every run; do not edit *)
 From Coq Require Import List Arith Bool PeanoNat Lia.
 Import ListNotations.
@@ -160,6 +162,8 @@ Definition src_insert (bits : nat) (self_b : bdd) (e : nat) : bdd := %s.
 Definition src_union (self_b other_b : bdd) : bdd := %s.
 Definition src_intersect (self_b other_b : bdd) : bdd := %s.
 Definition src_complement (self_b other_b : bdd) : bdd := %s.
+Definition src_empty (self_b : bdd) : bdd := %s.
+Definition src_universe (self_b : bdd) : bdd := %s.
 Lemma low_bit x : Nat.land x 1 = x mod 2.
 Proof. change 1 with (Nat.ones 1). rewrite Nat.land_ones. reflexivity. Qed.
 Lemma src_categorize_ok : forall e c, src_categorize e c = categorize e c.
@@ -191,8 +195,14 @@ Print Assumptions src_intersect_ok.
 Lemma src_complement_ok : forall a b, src_complement a b = s_complement a b.
 Proof. reflexivity. Qed.
 Print Assumptions src_complement_ok.
-''' % (cat, ins, uni, inter, comp)
-    return text, ['src_categorize_ok', 'src_insert_ok', 'src_union_ok', 'src_intersect_ok', 'src_complement_ok']
+Lemma src_empty_ok : forall a, src_empty a = s_empty.
+Proof. reflexivity. Qed.
+Print Assumptions src_empty_ok.
+Lemma src_universe_ok : forall a, src_universe a = s_universe.
+Proof. reflexivity. Qed.
+Print Assumptions src_universe_ok.
+''' % (cat, ins, uni, inter, comp, emp, univ)
+    return text, ['src_categorize_ok', 'src_insert_ok', 'src_union_ok', 'src_intersect_ok', 'src_complement_ok', 'src_empty_ok', 'src_universe_ok']
 
 
 def run(ctx):
